@@ -12,6 +12,15 @@
 (* that remembers a fingerprint of what it looked at and returns early     *)
 (* when the fingerprint is unchanged; what the fingerprint does not cover  *)
 (* (Blind) then goes unnoticed.                                            *)
+(*                                                                         *)
+(* Two things were added for the changes of round 9 (state that outlives   *)
+(* one call): the SHAPE of the tree changes between calls (a sub-directory *)
+(* loses its only *.cmake file, or gets it back), and the caller SWITCHES  *)
+(* to another output directory.  Every call regenerates the directory it   *)
+(* is aimed at and nothing else (OtherTargetUntouched).  The harness runs  *)
+(* a history as separate processes (routes "cmake", "cli") or as calls of  *)
+(* cminx.main() inside ONE process (route "inproc"), where caches, module  *)
+(* level dictionaries and class attributes survive from call to call.      *)
 (***************************************************************************)
 EXTENDS Integers, Sequences, FiniteSets, TLC, Json
 
@@ -20,42 +29,52 @@ CONSTANTS Dev, MaxSteps,
 
 \* a *.cmake source, a *.CMAKE source, the YAML file given with -s, and a source whose content changes while its
 \* modification time stays older than the generated pages (cp -p, rsync -t, a restored backup, an extracted archive)
-EditKinds == {"lower", "upper", "settings", "backdated"}
+\* "shape": the set of directories that hold a *.cmake file changes
+EditKinds == {"lower", "upper", "settings", "backdated", "shape"}
+Targets == {1, 2}
 
 VARIABLES ver,     \* [kind -> version] of the inputs as they are now
-          out,     \* [gen: a tree was generated, ver: the input versions it was generated from, complete: no page missing]
+          out,     \* per output directory: [gen: a tree was generated, ver: the input versions it was generated from, complete: no page missing]
+          target,  \* the output directory the calls are aimed at
           stamp,   \* what the wrapper remembers (deviation only)
           hist     \* the actions so far
-vars == <<ver, out, stamp, hist>>
+vars == <<ver, out, target, stamp, hist>>
 
 NoStamp == [k \in EditKinds \ Blind |-> -1]
-Init == /\ ver = [k \in EditKinds |-> 0] /\ out = [gen |-> FALSE, ver |-> [k \in EditKinds |-> -1], complete |-> FALSE]
+NoOut == [gen |-> FALSE, ver |-> [k \in EditKinds |-> -1], complete |-> FALSE]
+Init == /\ ver = [k \in EditKinds |-> 0] /\ out = [t \in Targets |-> NoOut] /\ target = 1
         /\ stamp = NoStamp /\ hist = <<>>
 
 Edit(k) == /\ Len(hist) < MaxSteps /\ ver' = [ver EXCEPT ![k] = @ + 1]
-           /\ hist' = Append(hist, "edit-" \o k) /\ UNCHANGED <<out, stamp>>
+           /\ hist' = Append(hist, "edit-" \o k) /\ UNCHANGED <<out, target, stamp>>
 \* somebody (a clean-up, the user) removes a generated page
-DeletePage == /\ Len(hist) < MaxSteps /\ out.gen /\ out.complete
-              /\ out' = [out EXCEPT !.complete = FALSE]
-              /\ hist' = Append(hist, "delete-page") /\ UNCHANGED <<ver, stamp>>
+DeletePage == /\ Len(hist) < MaxSteps /\ out[target].gen /\ out[target].complete
+              /\ out' = [out EXCEPT ![target].complete = FALSE]
+              /\ hist' = Append(hist, "delete-page") /\ UNCHANGED <<ver, target, stamp>>
+\* the caller aims the following calls at another output directory (once: from the first to the second)
+SwitchOutput == /\ Len(hist) < MaxSteps /\ target = 1 /\ target' = 2
+                /\ hist' = Append(hist, "switch-output") /\ UNCHANGED <<ver, out, stamp>>
 Fingerprint == [k \in EditKinds \ Blind |-> ver[k]]
 Call ==
   /\ Len(hist) < MaxSteps
   /\ IF "D_StampSkipsRun" \in Dev /\ stamp = Fingerprint
      THEN UNCHANGED <<out, stamp>>                                   \* "up to date": nothing is run
-     ELSE /\ out' = [gen |-> TRUE, ver |-> ver, complete |-> TRUE]   \* the executable runs: the tree is regenerated
+     ELSE /\ out' = [out EXCEPT ![target] = [gen |-> TRUE, ver |-> ver, complete |-> TRUE]]   \* the executable runs: the tree is regenerated
           /\ stamp' = IF "D_StampSkipsRun" \in Dev THEN Fingerprint ELSE NoStamp
-  /\ hist' = Append(hist, "call") /\ UNCHANGED ver
+  /\ hist' = Append(hist, "call") /\ UNCHANGED <<ver, target>>
 
 EditLower == Edit("lower")
 EditUpper == Edit("upper")
 EditSettings == Edit("settings")
 EditBackdated == Edit("backdated")
-Next == EditLower \/ EditUpper \/ EditSettings \/ EditBackdated \/ DeletePage \/ Call
+EditShape == Edit("shape")
+Next == EditLower \/ EditUpper \/ EditSettings \/ EditBackdated \/ EditShape \/ DeletePage \/ SwitchOutput \/ Call
 Spec == Init /\ [][Next]_vars
 
 JustCalled == Len(hist) > 0 /\ hist[Len(hist)] = "call"
 \* C19: after every call the output tree is the one the command line produces for the current inputs
-C19_TreeIsCurrent == JustCalled => out.gen /\ out.ver = ver /\ out.complete
+C19_TreeIsCurrent == JustCalled => out[target].gen /\ out[target].ver = ver /\ out[target].complete
+\* C18 over time: a step changes only the output directory it is aimed at
+OtherTargetUntouched == [][\A t \in Targets : out'[t] # out[t] => t = target]_vars
 Emit == JustCalled => PrintT(<<"BEH", ToJson([hist |-> hist])>>)
 =============================================================================
